@@ -155,6 +155,7 @@ class Check:
         self.rc = 0
         self.parts = {}
         self.dead = []
+        self.skipped = []
         self.native = None
 
     def note(self, rc):
@@ -237,7 +238,16 @@ class Check:
             self.dead.append(sub)
 
     def run_plain(self, sub, kind, n, extra=None):
-        binary = self.native if sub == 'native' else build(sub)
+        try:
+            binary = self.native if sub == 'native' else build(sub)
+        except HarnessError as e:
+            if sub in ('native', 'nodebug'):
+                raise
+            # /repo compiles in the default configuration but not in this one (e.g. a change that is only
+            # type-correct without simd-accel): say so and go on with the substrates that do build
+            say('WARNING: %s - substrate %s skipped' % (e, sub))
+            self.skipped.append(sub)
+            return
         part = '%s/%s.%s.json' % (PARTS, self.prop, sub)
         note = '%s/%s.%s.death' % (PARTS, self.prop, sub)
         if os.path.exists(note):
@@ -253,7 +263,12 @@ class Check:
         self.died(sub, binary, p.returncode, p.stderr, note, [])
 
     def run_asan(self, kind, n):
-        binary = build('asan')
+        try:
+            binary = build('asan')
+        except HarnessError as e:
+            say('WARNING: %s - substrate asan skipped' % e)
+            self.skipped.append('asan')
+            return
         note = '%s/%s.asan.death' % (PARTS, self.prop)
         part = '%s/%s.asan.json' % (PARTS, self.prop)
         if os.path.exists(note):
@@ -293,7 +308,12 @@ class Check:
         self.note(1)
 
     def run_miri(self, runs, procs):
-        build_miri()
+        try:
+            build_miri()
+        except HarnessError as e:
+            say('WARNING: %s - substrate miri skipped' % e)
+            self.skipped.append('miri')
+            return
         env = dict(ENV, **MIRI_ENV)
         runs = max(1, int(runs * SCALE))
         per = (runs + procs - 1) // procs
@@ -367,6 +387,7 @@ class Check:
             total += agg['evaluations']
         cov['substrates'] = subs
         cov['substrates_killed_by_the_code_under_test'] = self.dead
+        cov['substrates_skipped_because_they_do_not_build'] = self.skipped
         cov['evaluations_main_substrate'] = cov['evaluations']
         cov['main_substrate'] = main
         cov['evaluations'] = total
